@@ -24,8 +24,8 @@ RULE = ("(a) 'pairs': arithmetic sub-domain rows in 1..20000 x bands n in 1..64 
         "Non-trivial = n >= 2 and rows not a multiple of n; distinct = distinct (rows,n[,layout]).")
 ASSUMPTIONS = [
     "images of BITPIX -32, -64, 16 and 32 with optional BSCALE and BZERO cards; band values are compared with BZERO + BSCALE * stored (1e-6 for float32 data, 1e-12 otherwise)",
-    "for compressed inputs only the value clause is asserted (the statement's parenthesis covers values); the band "
-    "header of a compressed file is evaluated and reported under a label, not judged",
+    "compressed inputs are judged like plain ones (values against the expansion of the file, band header against the "
+    "image's astrometry)",
 ]
 
 
@@ -261,7 +261,7 @@ def check_content(c):
                 res.bad("band-values", "band %d/%d: %d rows do not equal image rows %d..%d" % (i, n, k, nxt, nxt + k),
                         compressed=compressed)
                 return res
-            if not compressed:
+            if True:
                 if int(hdr["NAXIS2"]) != k:
                     res.bad("band-header-naxis2", "band %d/%d NAXIS2=%r for %d rows" % (i, n, hdr["NAXIS2"], k))
                 bw = refs.ZWCS.from_header(hdr)
@@ -274,9 +274,6 @@ def check_content(c):
                     if not sep <= 1e-9:
                         res.bad("band-astrometry", "band %d/%d (rows %d..%d): band header maps its pixels %.3g deg away "
                                 "from the full image's positions" % (i, n, nxt, nxt + k, sep))
-            else:
-                hn = hdr["NAXIS2"]
-                res.label("compressed-band-header-" + ("adjusted" if int(hn) == k else "unadjusted"))
             nxt += k
         if nxt != rows:
             res.bad("tiling-end", "rows=%d n=%d: bands cover %d rows" % (rows, n, nxt), compressed=compressed)
